@@ -1,11 +1,11 @@
 \* EXPECTED VIOLATION OnlyVerified/EmittedVerified: mutant without SanityCheckNewHeight
 CONSTANTS HA = 2 HB = 0 ForkAt = 0 Start = 0 MaxIter = 3 WithCancel = FALSE
   Peers = {"honest", "corrupt", "trunc"}
-  Verify = FALSE Retry = TRUE CheckedStore = TRUE CtxAwareSends = TRUE
+  Verify = FALSE Retry = TRUE CheckedStore = TRUE CtxAwareSends = TRUE FieldsChecked = TRUE
   ClassOf <- MCIdentity EmptyA <- MCEmptyMix EmptyB <- MCNoEmpty
 INIT Init
 NEXT Next
 VIEW view
-INVARIANTS TypeOK StoredIsChain OnlyVerified EmittedVerified PrefixOfA NoSkip NoLeak ExitOnlyAfterCancel
+INVARIANTS TypeOK StoredIsChain OnlyVerified EmittedVerified PrefixOfA NoSkip NoLeak ExitOnlyAfterCancel NoCrash
 PROPERTIES StoreExtends
 CHECK_DEADLOCK FALSE
